@@ -47,13 +47,9 @@ srv_harness! {
         let (out, stats) = once(Class::Time, 0x23, 48, 56);
         assert!(out.kind == Some(Kind::Time) && stats.reason == ServerReason::Policy, "C21: time answer recorded");
         kani::cover!(out.resp_len == 48, "time answer into a larger buffer");
-        // rejected datagrams end-to-end
-        let (out, stats) = once(Class::Time, 0x24, 48, 48);
+        // a rejected datagram end-to-end (the full list: c15_reject_wire / c15_reject_short)
+        let (out, stats) = once(Class::DenyList, 0x24, 48, 48);
         assert!(out.kind.is_none() && stats.reason == ServerReason::ParseError, "C21: non-client mode recorded as parse error");
-        let (out, stats) = once(Class::Time, 0x23, 47, 47);
-        assert!(out.kind.is_none() && stats.reason == ServerReason::ParseError, "C21: short datagram recorded as parse error");
-        let (out, stats) = once(Class::DenyList, 0x3B, 48, 48);
-        assert!(out.kind.is_none() && stats.reason == ServerReason::ParseError, "C21: unknown version recorded as parse error");
         kani::cover!(stats.calls == 1, "registered once");
     }
 }
